@@ -761,8 +761,12 @@ class ExcelCompiler:
                 # the reference depends on the range it stands for
                 ref_nodes.append(ref_cell)
 
-            self.range_todos.append(str(excel_data.address))
-            new_nodes = build_range(excel_data) + ref_nodes
+            if ref_nodes and str(excel_data.address) in self.cell_map:
+                # the range the reference stands for is already built
+                new_nodes = ref_nodes
+            else:
+                self.range_todos.append(str(excel_data.address))
+                new_nodes = build_range(excel_data) + ref_nodes
             if ref_nodes:
                 # the reference gets its value with the range it stands for
                 self.range_todos.append(str(address))
